@@ -314,8 +314,11 @@ template <class G, class L> std::string checkLabels(const Subject<G, L> &s, Labe
                         return o.str();
                     }
                 } else {
-                    ++lc.absent;
                     auto gh = s.ghosts.find(k);
+                    // on graphs of more than 12 vertices the never-an-edge pairs are sampled (each read throws): every pair whose
+                    // edge disappeared is read, plus about 150 of the others per check
+                    if (n > 12 && gh == s.ghosts.end() && mix64(((uint64_t)i << 32) | j, s.hist.size()) % ((uint64_t)n * n) >= 150) continue;
+                    ++lc.absent;
                     int how = gh == s.ghosts.end() ? G_NONE : gh->second.first;
                     ++lc.after[how];
                     std::string what;
@@ -372,6 +375,10 @@ template <class G, class L> struct Monitor {
             if (ph < 9) { wAdd = 70; wRemove = 4; wVertex = 0; wClear = 0; wLoops = 0; }
             else if (ph < 11) { wAdd = 0; wRemove = 5; wVertex = 30; wClear = 20; wLoops = 20; wSet = 0; wRec = 0; }
             else { wAdd = 70; wRemove = 2; wVertex = 0; wClear = 0; wLoops = 0; }
+        }
+        if (style == 4) { wAdd = 40; wRemove = 34; wLoops = 3; wVertex = 4; wClear = 0; wResize = 1; wSet = LT<L>::labelled ? 10 : 2; wRec = directed ? 6 : 0; }
+        if (style == 3) { // scale histories: grow a hub, keep churning its edges
+            wAdd = 52; wRemove = 26; wLoops = 1; wVertex = 1; wClear = 0; wResize = 1; wSet = LT<L>::labelled ? 8 : 2; wRec = directed ? 4 : 0;
         }
         if (cfg.force) {
             // C16: forced and unforced insertions, removeEdge, removeDuplicateEdges only
@@ -439,7 +446,7 @@ template <class G, class L> struct Monitor {
         for (int k = 0; k < KIND_COUNT; ++k)
             if (callsByKind[k]) R.count(std::string("calls_") + kindName(k), callsByKind[k]);
         R.count("noop_exactness_checks", noopChecks);
-        R.count("long_histories_1200_to_2700_calls", longHistories);
+        R.count("long_histories_2000_to_4500_calls", longHistories);
         longHistories = 0;
         R.count("scale_pairs_with_four_hubs", scalePairs);
         scalePairs = 0;
@@ -504,16 +511,17 @@ template <class G, class L> struct Monitor {
             static const unsigned bigN[] = {12, 24, 40, 70};
             n0 = bigN[(sub / cfg.scaleEvery) % 4];
             maxN = n0 + 2;
-            len = 150 + r.u(n0 * 5);
+            len = 250 + r.u(n0 * 7);
             checkEvery = 8;
-            style = 0;
+            style = 3;
             pp.hub = (int)r.u(n0);
             ++scaleHistories;
         } else if (cfg.scaleEvery && sub % (cfg.scaleEvery * 4) == 11) {
             // a long life of one small object: more than a thousand calls, hundreds of removals
-            len = 1200 + r.u(1500);
+            len = 2000 + r.u(2500);
             checkEvery = 16;
             n0 = 3 + r.u(4);
+            style = 4; // steady churn without clearEdges: hundreds of edges come and go on one object
             ++longHistories;
         }
         Subject<G, L> s(n0);
@@ -587,7 +595,7 @@ template <class G, class L> struct Monitor {
                 bool diverged = false;
                 for (VertexIndex a = 0; a < s.m.n && !diverged; ++a)
                     for (VertexIndex b = 0; b < s.m.n && !diverged; ++b)
-                        if (s.g.hasEdge(a, b) != s.m.has(a, b)) diverged = true;
+                        if (s.g.hasEdge(a, b) && !s.m.has(a, b)) diverged = true; // an edge the history does not account for: its label is nobody's to predict
                 if (diverged || s.g.getSize() != s.m.n) {
                     R.count("histories_abandoned_edge_set_diverged_from_history");
                     return;
@@ -726,6 +734,9 @@ template <class G, class L> struct Monitor {
                 else add(h[t], perm[q]);
             }
         }
+        for (int a = 0; a < 4; ++a)
+            for (int b = 0; b < 4; ++b)
+                if (a != b) add(h[a], h[b]); // hubs are neighbours of one another
         for (unsigned t = 0; t < n; ++t) add(r.u(n), r.u(n));
         // the swap: h0->h1 and h2->h3 present, h0->h3 and h2->h1 absent
         E.erase(canon(directed, h[0], h[3]));
@@ -766,7 +777,7 @@ template <class G, class L> struct Monitor {
         eqAll(B, A, true, "scale-source-after-copy-mutated", ctx);
     }
     void runPair(uint64_t sub) {
-        if (sub % 40 == 9) return runScalePair(sub);
+        if (sub % (LT<L>::labelled ? 40 : 8) == 1) return runScalePair(sub);
         Rng r = caseRng(R.args.seed, hashStr(cls + "pair"), sub);
         static const unsigned startN[] = {0, 1, 2, 3, 5};
         uint64_t stampCtr = (sub % 1000) * 1000;
